@@ -57,8 +57,15 @@ static SolveResult solveChecked(const OracleCtx &c, const ob::PlannerPtr &planne
     }
     sink.count(std::string("status:") + statusName(r.status));
     bool solStatus = (bool)r.status;
+    // a solution status must be backed by a solution the problem definition holds (a resumed solve() may return
+    // EXACT_SOLUTION for the solution it reported earlier without adding another path)
     if (solStatus && r.added.empty())
-        c.viol("status-without-path", c.detail("solution status but no path was added by this call").str("status", statusName(r.status)));
+    {
+        if (pdef->getSolutionCount() == 0)
+            c.viol("status-without-path", c.detail("solution status but the problem definition holds no solution path").str("status", statusName(r.status)));
+        else
+            sink.count("solution_status_without_new_path");
+    }
     if (!solStatus && !r.added.empty())
         c.viol("nonsolution-added-path", c.detail("non-solution status but a path was added").str("status", statusName(r.status)).i("added", r.added.size()));
     bool anyExact = false, anyApprox = false;
@@ -160,7 +167,12 @@ struct LeakScope
         long live = w.tracker->liveCount() - base;
         long bad = w.tracker->badFrees - badBase;
         c.sink.count("leak_scopes_checked");
-        if (live > 0) c.viol("leak-states", c.detail("states still allocated after planner and problem definition were destroyed").i("leaked", live).str("history", history));
+        // a history that exported planner data is keyed separately: BIT*-family planners keep every exported vertex alive in a
+        // function-local static on purpose (known finding), which must not mask a leak on histories without getPlannerData()
+        const bool exported = history.find("getPlannerData") != std::string::npos;
+        if (live > 0)
+            c.viol(exported ? "leak-states-after-getPlannerData" : "leak-states",
+                   c.detail("states still allocated after planner and problem definition were destroyed").i("leaked", live).str("history", history));
         if (live < 0) c.viol("state-count-negative", c.detail("more states freed than allocated").i("delta", live).str("history", history));
         if (bad > 0) c.viol("bad-free", c.detail("freeState() called on a pointer that is not a live state (double free)").i("n", bad).str("history", history));
     }
@@ -206,8 +218,8 @@ static void c03History(Sink &sink, const Args &a, long c, const PInfo &pi, long 
     auto w = makeWorld(wseed, kind, false, 4);
     w->rangeMode = 0;
     Rng rng(caseSeed(a, c));
-    OracleCtx ctx{sink, *w, pi, "C03", "solution-"};
-    OracleCtx hctx{sink, *w, pi, "C03", ""};
+    OracleCtx ctx{sink, *w, pi, "C03", "solution-", nullptr};
+    OracleCtx hctx{sink, *w, pi, "C03", "", nullptr};
     std::string hist;
     {
         LeakScope leak(*w);
@@ -227,6 +239,18 @@ static void c03History(Sink &sink, const Args &a, long c, const PInfo &pi, long 
                 return;
             }
             int len = 2 + rng.ui(7);
+            // the first history of every planner is fixed: solve, switch the problem definition without clear(), solve
+            const bool fixedHistory = (hidx == 0);
+            if (fixedHistory) len = 3;
+            // after setProblemDefinition(new) without clear(): wrong end points of the next paths are symptoms of one root
+            // cause (the planner did not forget the previous query) and share one key
+            bool dirtySwitch = false;
+            ctx.remap = [&dirtySwitch](const std::string &cl) {
+                if (dirtySwitch && (cl == "solution-start-state" || cl == "solution-goal-not-satisfied" || cl == "solution-approx-difference" || cl == "stale-query"))
+                    return std::string("stale-query-after-setProblemDefinition");
+                return cl;
+            };
+            hctx.remap = ctx.remap;
             bool cleared = true;  // whether the planner currently holds no information of an earlier query
             std::vector<std::vector<double>> oldEnds;  // start / goal states of earlier queries
             bool abandoned = false;
@@ -234,6 +258,7 @@ static void c03History(Sink &sink, const Args &a, long c, const PInfo &pi, long 
             for (int step = 0; step < len && !abandoned; ++step)
             {
                 int op = step == 0 ? 0 : (int)rng.ui(7);
+                if (fixedHistory) op = step == 1 ? 4 : 0;
                 hist += std::string(hist.empty() ? "" : ",") + OPN[op];
                 sink.count(std::string("c03_op_") + OPN[op]);
                 try
@@ -288,6 +313,7 @@ static void c03History(Sink &sink, const Args &a, long c, const PInfo &pi, long 
                             hctx.viol("plannerdata-after-clear", hctx.detail("getPlannerData() not empty after clear()").i("vertices", pd.numVertices()).str("history", hist));
                         sink.count("c03_clear_checks");
                         cleared = true;
+                        dirtySwitch = false;
                         pdef->clearSolutionPaths();
                     }
                     else if (op == 3)
@@ -300,6 +326,7 @@ static void c03History(Sink &sink, const Args &a, long c, const PInfo &pi, long 
                         pdef = makePdef(*w);
                         planner->setProblemDefinition(pdef);
                         planner->clearQuery();
+                        dirtySwitch = false;
                     }
                     else if (op == 4)
                     {
@@ -309,6 +336,7 @@ static void c03History(Sink &sink, const Args &a, long c, const PInfo &pi, long 
                         newQuery(*w, rng);
                         pdef = makePdef(*w);
                         planner->setProblemDefinition(pdef);
+                        dirtySwitch = true;
                     }
                     else if (op == 5)
                     {
@@ -332,6 +360,7 @@ static void c03History(Sink &sink, const Args &a, long c, const PInfo &pi, long 
                         pdef = makePdef(*w);
                         planner->setProblemDefinition(pdef);
                         cleared = true;
+                        dirtySwitch = false;
                     }
                 }
                 catch (const std::exception &ex)
